@@ -402,4 +402,261 @@ theorem assignCopy_spec {p : Pool} (hI : Inv p) {o src : Nat} {b c : Buf} (ho : 
       · obtain ⟨p', h1, h2, h3⟩ := assignCopyTail_long_ok hS.inv hb₁ hno hsrc₁ (by omega) hf
         exact Or.inl ⟨p', h1, hS.trans h2, h3.trans hvs⟩
 
+/-! ### move assignment -/
+
+theorem assignMove_self {p : Pool} (hI : Inv p) {o : Nat} {b : Buf} (ho : p.objs o = some b) :
+    ∃ p', assignMove o o p = .ok () p' ∧ Succ p p' (fun x => x = o ∨ x = o) ∧ view p' o = view p o := by
+  have hb : (if b.isReffed p.L = true then b else { b with chars := .loc o }) = b := by
+    by_cases hs : b.size < p.L
+    · have hn : ¬ p.L ≤ b.size := by omega
+      have hc := (hI.short_chars ho hs).1
+      simp only [Buf.isReffed, ge_iff_le, decide_eq_true_eq, hn, ↓reduceIte]
+      cases b; simp only at hc; subst hc; rfl
+    · have hl : p.L ≤ b.size := by omega
+      simp only [Buf.isReffed, ge_iff_le, decide_eq_true_eq, hl, ↓reduceIte]
+  simp only [assignMove, bind_apply, getP_apply, getObj_some ho, setObj_eq]
+  refine ⟨_, rfl, ?_⟩
+  simp only [hb, upd_upd]
+  have := hI.same (p' := { p with objs := upd p.objs o (some b) }) rfl
+    (fun x => by
+      by_cases hx : x = o
+      · subst hx; simp only [upd_same]; exact ho.symm
+      · exact upd_other _ _ hx)
+    (fun _ => rfl) rfl rfl
+  exact ⟨this.1.mono (fun _ h => h.elim), this.2 o⟩
+
+theorem assignMove_short_short {p : Pool} (hI : Inv p) {o src : Nat} {a b : Buf} (hne : o ≠ src) (ho : p.objs o = some a)
+    (hsrc : p.objs src = some b) (ha : a.size < p.L) (hb : b.size < p.L) :
+    ∃ p', assignMove o src p = .ok () p' ∧ Succ p p' (fun x => x = o ∨ x = src) ∧ view p' o = view p src ∧
+      view p' src = view p o := by
+  have hna : ¬ p.L ≤ a.size := by omega
+  have hnb : ¬ p.L ≤ b.size := by omega
+  simp only [assignMove, bind_apply, getP_apply, getObj_some ho, getObj_some hsrc, Buf.isReffed, ge_iff_le, decide_eq_true_eq, hna, hnb,
+    ↓reduceIte, setObj_eq]
+  refine ⟨_, rfl, ?_⟩
+  have h1 := hI.set_short (p' := { p with objs := upd p.objs src (some { chars := .loc src, size := a.size, data := a.data }) })
+    (o := src) rfl (upd_same _ _ _) (fun x hx => upd_other _ _ hx)
+    (rel_of_notOwning (notOwning_of_short hsrc hb) _) (fun _ _ => rfl) rfl rfl (hI.shortOk_of_short ho ha) rfl rfl
+  have ho1 : Pool.objs { p with objs := upd p.objs src (some { chars := .loc src, size := a.size, data := a.data }) } o = some a := by
+    simp only []; rw [upd_other _ _ hne]; exact ho
+  have h2 := h1.1.inv.set_short (o := o)
+    (p' := { p with objs := upd (upd p.objs src (some { chars := .loc src, size := a.size, data := a.data })) o
+                                (some { chars := .loc o, size := b.size, data := b.data }) })
+    rfl (upd_same _ _ _) (fun x hx => upd_other _ _ hx)
+    (rel_of_notOwning (notOwning_of_short ho1 ha) _) (fun _ _ => rfl) rfl rfl (hI.shortOk_of_short hsrc hb) rfl rfl
+  refine ⟨(h1.1.mono (fun x h => Or.inr h)).trans (h2.1.mono (fun x h => Or.inl h)), ?_, ?_⟩
+  · rw [h2.2, view_short hsrc (hI.short_chars hsrc hb).1]
+  · rw [h2.1.view src (Ne.symm hne), h1.2, view_short ho (hI.short_chars ho ha).1]
+
+theorem assignMove_short_long {p : Pool} (hI : Inv p) {o src : Nat} {a b : Buf} (hne : o ≠ src) (ho : p.objs o = some a)
+    (hsrc : p.objs src = some b) (ha : a.size < p.L) (hb : p.L ≤ b.size) :
+    ∃ p', assignMove o src p = .ok () p' ∧ Succ p p' (fun x => x = o ∨ x = src) ∧ view p' o = view p src ∧
+      view p' src = view p o := by
+  have hna : ¬ p.L ≤ a.size := by omega
+  obtain ⟨k, blk, hc, hblk, _, _, _⟩ := hI.owner_block hsrc hb
+  simp only [assignMove, bind_apply, getP_apply, getObj_some ho, getObj_some hsrc, Buf.isReffed, ge_iff_le, decide_eq_true_eq, hna, hb,
+    ↓reduceIte, setObj_eq]
+  refine ⟨_, rfl, ?_⟩
+  have := hI.transfer (o := o) (src := src) (k := k)
+    (p' := { p with objs := upd (upd p.objs src (some { chars := .loc src, size := a.size, data := a.data })) o
+                                (some { chars := b.chars, size := b.size, data := b.data }) })
+    rfl hne (notOwning_of_short ho ha) hsrc hb hc (upd_same _ _ _)
+    (by simp only []; rw [upd_other _ _ (Ne.symm hne), upd_same])
+    (fun x h1 h2 => by simp only []; rw [upd_other _ _ h1, upd_other _ _ h2]) (fun _ => rfl) rfl hc rfl
+    (hI.obj src b hsrc).len (hI.shortOk_of_short ho ha) rfl
+  exact ⟨this.1, this.2.1, by rw [this.2.2, view_short ho (hI.short_chars ho ha).1]⟩
+
+theorem assignMove_long_short {p : Pool} (hI : Inv p) {o src : Nat} {a b : Buf} (hne : o ≠ src) (ho : p.objs o = some a)
+    (hsrc : p.objs src = some b) (ha : p.L ≤ a.size) (hb : b.size < p.L) :
+    ∃ p', assignMove o src p = .ok () p' ∧ Succ p p' (fun x => x = o ∨ x = src) ∧ view p' o = view p src ∧
+      view p' src = view p o := by
+  have hnb : ¬ p.L ≤ b.size := by omega
+  obtain ⟨k, blk, hc, hblk, _, _, _⟩ := hI.owner_block ho ha
+  simp only [assignMove, bind_apply, getP_apply, getObj_some ho, getObj_some hsrc, Buf.isReffed, ge_iff_le, decide_eq_true_eq, hnb, ha,
+    ↓reduceIte, setObj_eq]
+  refine ⟨_, rfl, ?_⟩
+  have := hI.transfer (o := src) (src := o) (k := k)
+    (p' := { p with objs := upd (upd p.objs src (some { chars := a.chars, size := a.size, data := a.data })) o
+                                (some { chars := .loc o, size := b.size, data := b.data }) })
+    rfl (Ne.symm hne) (notOwning_of_short hsrc hb) ho ha hc
+    (by simp only []; rw [upd_other _ _ (Ne.symm hne), upd_same]) (upd_same _ _ _)
+    (fun x h1 h2 => by simp only []; rw [upd_other _ _ h2, upd_other _ _ h1]) (fun _ => rfl) rfl hc rfl
+    (hI.obj o a ho).len (hI.shortOk_of_short hsrc hb) rfl
+  exact ⟨this.1.mono (fun _ h => h.symm), by rw [this.2.2, view_short hsrc (hI.short_chars hsrc hb).1], this.2.1⟩
+
+theorem assignMove_long_long {p : Pool} (hI : Inv p) {o src : Nat} {a b : Buf} (hne : o ≠ src) (ho : p.objs o = some a)
+    (hsrc : p.objs src = some b) (ha : p.L ≤ a.size) (hb : p.L ≤ b.size) :
+    ∃ p', assignMove o src p = .ok () p' ∧ Succ p p' (fun x => x = o ∨ x = src) ∧ view p' o = view p src ∧
+      view p' src = view p o := by
+  obtain ⟨k₁, blk₁, hc₁, _, _, _, _⟩ := hI.owner_block ho ha
+  obtain ⟨k₂, blk₂, hc₂, _, _, _, _⟩ := hI.owner_block hsrc hb
+  simp only [assignMove, bind_apply, getP_apply, getObj_some ho, getObj_some hsrc, Buf.isReffed, ge_iff_le, decide_eq_true_eq, ha, hb,
+    ↓reduceIte, setObj_eq]
+  refine ⟨_, rfl, ?_⟩
+  exact hI.swap_long (o := o) (src := src) (k₁ := k₁) (k₂ := k₂)
+    (p' := { p with objs := upd (upd p.objs src (some { chars := a.chars, size := a.size, data := a.data })) o
+                                (some { chars := b.chars, size := b.size, data := b.data }) })
+    rfl hne ho ha hc₁ hsrc hb hc₂ (upd_same _ _ _)
+    (by simp only []; rw [upd_other _ _ (Ne.symm hne), upd_same])
+    (fun x h1 h2 => by simp only []; rw [upd_other _ _ h1, upd_other _ _ h2]) (fun _ => rfl) rfl hc₂ rfl
+    (hI.obj src b hsrc).len hc₁ rfl (hI.obj o a ho).len rfl
+
+theorem assignMove_spec {p : Pool} (hI : Inv p) {o src : Nat} {a b : Buf} (ho : p.objs o = some a) (hsrc : p.objs src = some b) :
+    ∃ p', assignMove o src p = .ok () p' ∧ Succ p p' (fun x => x = o ∨ x = src) ∧ view p' o = view p src ∧
+      view p' src = view p o := by
+  by_cases hne : o = src
+  · subst hne
+    obtain ⟨p', h1, h2, h3⟩ := assignMove_self hI ho
+    exact ⟨p', h1, h2, h3, h3⟩
+  · by_cases ha : a.size < p.L <;> by_cases hb : b.size < p.L
+    · exact assignMove_short_short hI hne ho hsrc ha hb
+    · exact assignMove_short_long hI hne ho hsrc ha (by omega)
+    · exact assignMove_long_short hI hne ho hsrc (by omega) hb
+    · exact assignMove_long_long hI hne ho hsrc (by omega) (by omega)
+
+/-! ### allocate (two phases: become the empty in-object buffer, then take the new storage) -/
+
+/-- first phase of `allocate` (as repaired): release / clear, leaving the empty in-object buffer -/
+def allocateReset (o : Nat) : M Unit := do
+  let p ← getP
+  let b ← getObj o
+  if b.isReffed p.L then
+    deleteBlock b.chars
+    setObj o { chars := .loc o, size := 0, data := overwrite b.data 0 [0] }
+  else
+    setObj o { chars := .loc o, size := 0, data := zeros p.L }
+
+/-- second phase of `allocate` -/
+def allocateTail (L o n : Nat) : M Unit := do
+  if n ≥ L then
+    let chars ← newBlock (n + 1)
+    let b ← getObj o
+    setObj o { b with chars := chars, size := n }
+    writeUnits chars n [0]
+  else
+    let b ← getObj o
+    setObj o { b with size := n }
+    writeUnits (.loc o) n [0]
+
+theorem allocate_phases (o n : Nat) (p : Pool) :
+    allocate o n p = (allocateReset o >>= fun _ => allocateTail p.L o n) p := by
+  simp only [allocate, allocateReset, allocateTail, bind_apply, getP_apply]
+  cases getObj o p with
+  | ok b p1 =>
+    by_cases hr : b.isReffed p.L = true
+    · simp only [hr, ↓reduceIte, bind_apply]
+      cases deleteBlock b.chars p1 with
+      | ok _ p2 => rfl
+      | _ => rfl
+    · simp only [hr, Bool.false_eq_true, ↓reduceIte]; rfl
+  | _ => rfl
+
+theorem allocateReset_spec {p : Pool} (hI : Inv p) {o : Nat} {b : Buf} (ho : p.objs o = some b) :
+    ∃ p₁, allocateReset o p = .ok () p₁ ∧ Succ p p₁ (· = o) ∧ p₁.allocs = p.allocs ∧ view p₁ o = some (0, []) := by
+  by_cases hs : b.size < p.L
+  · have hn : ¬ p.L ≤ b.size := by omega
+    simp only [allocateReset, bind_apply, getP_apply, getObj_some ho, Buf.isReffed, ge_iff_le, decide_eq_true_eq, hn, ↓reduceIte,
+      setObj_eq]
+    refine ⟨_, rfl, ?_⟩
+    have := hI.set_short (o := o) (n := 0) (vs := [])
+      (p' := { p with objs := upd p.objs o (some { chars := .loc o, size := 0, data := zeros p.L }) })
+      rfl (upd_same _ _ _) (fun x hx => upd_other _ _ hx) (rel_of_notOwning (notOwning_of_short ho hs) _) (fun _ _ => rfl) rfl rfl
+      (shortOk_empty hI.Lpos) rfl rfl
+    exact ⟨this.1, rfl, this.2⟩
+  · have hl : p.L ≤ b.size := by omega
+    obtain ⟨k, blk, hc, hblk, _, _, hown⟩ := hI.owner_block ho hl
+    simp only [allocateReset, bind_apply, getP_apply, getObj_some ho, Buf.isReffed, ge_iff_le, decide_eq_true_eq, hl, ↓reduceIte, hc,
+      deleteBlock_some hblk, setObj_eq]
+    refine ⟨_, rfl, ?_⟩
+    have := hI.set_short (o := o) (n := 0) (vs := [])
+      (p' := { p with heap := upd p.heap k none, objs := upd p.objs o (some { chars := .loc o, size := 0, data := overwrite b.data 0 [0] }) })
+      rfl (upd_same _ _ _) (fun x hx => upd_other _ _ hx) (rel_of_owns hown) (heap_of_owns hown) rfl rfl
+      (shortOk_reset hI.Lpos (hI.obj o b ho).len) rfl rfl
+    exact ⟨this.1, rfl, this.2⟩
+
+theorem allocateTail_short {p : Pool} (hI : Inv p) {o n : Nat} {b : Buf} (ho : p.objs o = some b) (hs : b.size < p.L)
+    (hn : n < p.L) :
+    ∃ p', allocateTail p.L o n p = .ok () p' ∧ Succ p p' (· = o) ∧ ∃ us, us.length = n ∧ view p' o = some (n, us) := by
+  have hn' : ¬ p.L ≤ n := by omega
+  obtain ⟨hc, _, hlen⟩ := hI.short_chars ho hs
+  simp only [allocateTail, bind_apply, ge_iff_le, hn', ↓reduceIte, getObj_some ho, setObj_eq]
+  rw [writeUnits_loc (upd_same _ _ _) (by simp; omega)]
+  refine ⟨_, rfl, ?_⟩
+  have hb : ShortOk p.L o { chars := b.chars, size := n, data := overwrite b.data n [0] } :=
+    ⟨by rw [length_overwrite (by simp; omega)]; exact hlen, hn, hc, getElem?_overwrite_term (by omega)⟩
+  have := hI.set_short (o := o) (n := n) (vs := (overwrite b.data n [0]).take n)
+    (p' := { p with objs := upd (upd p.objs o (some { chars := b.chars, size := n, data := b.data })) o
+                                (some { chars := b.chars, size := n, data := overwrite b.data n [0] }) })
+    rfl (upd_same _ _ _) (fun x hx => by simp only []; rw [upd_other _ _ hx, upd_other _ _ hx])
+    (rel_of_notOwning (notOwning_of_short ho hs) _) (fun _ _ => rfl) rfl rfl hb rfl rfl
+  refine ⟨this.1, _, ?_, this.2⟩
+  rw [List.length_take, length_overwrite (by simp; omega)]; omega
+
+theorem allocateTail_long_ok {p : Pool} (hI : Inv p) {o n : Nat} {b : Buf} (ho : p.objs o = some b) (hs : b.size < p.L)
+    (hn : p.L ≤ n) (hf : p.failAt ≠ some (p.allocs + 1)) :
+    ∃ p', allocateTail p.L o n p = .ok () p' ∧ Succ p p' (· = o) ∧ ∃ us, us.length = n ∧ view p' o = some (n, us) := by
+  simp only [allocateTail, bind_apply, ge_iff_le, hn, ↓reduceIte, newBlock_ok _ hf]
+  simp only [getObj, ho, setObj_eq]
+  rw [writeUnits_heap (upd_same _ _ _) (by simp)]
+  refine ⟨_, rfl, ?_⟩
+  have := hI.fresh (o := o) (n := n) (b' := { chars := .heap p.next, size := n, data := b.data })
+    (blk := overwrite (List.replicate (n + 1) 205) n [0]) (vs := (overwrite (List.replicate (n + 1) 205) n [0]).take n)
+    (p' := { p with objs := upd p.objs o (some { chars := .heap p.next, size := n, data := b.data }),
+                    heap := upd (upd p.heap p.next (some (List.replicate (n + 1) 205))) p.next
+                              (some (overwrite (List.replicate (n + 1) 205) n [0])),
+                    next := p.next + 1, allocs := p.allocs + 1 })
+    rfl (upd_same _ _ _) (fun x hx => upd_other _ _ hx) (upd_same _ _ _)
+    (fun k hk => by simp only []; rw [upd_other _ _ hk, upd_other _ _ hk]) rfl
+    (notOwning_of_short ho hs) rfl rfl hn (hI.obj o b ho).len (by rw [length_overwrite (by simp)]; simp)
+    (getElem?_overwrite_term (by simp)) rfl rfl
+  refine ⟨this.1, _, ?_, this.2⟩
+  rw [List.length_take, length_overwrite (by simp)]; simp
+
+theorem allocateTail_long_throw {p : Pool} (hI : Inv p) {o n : Nat} (hn : p.L ≤ n) (hf : p.failAt = some (p.allocs + 1))
+    (T : Nat → Prop) :
+    ∃ p', allocateTail p.L o n p = .throw .badAlloc p' ∧ Succ p p' T ∧ ∀ x, view p' x = view p x := by
+  simp only [allocateTail, bind_apply, ge_iff_le, hn, ↓reduceIte, newBlock_throw _ hf]
+  exact ⟨_, rfl, hI.succ_allocs T, (hI.same (by rfl) (fun _ => by rfl) (fun _ => by rfl) (by rfl) (by rfl)).2⟩
+
+theorem allocate_spec {p : Pool} (hI : Inv p) {o : Nat} (n : Nat) {b : Buf} (ho : p.objs o = some b) :
+    Outcome (allocate o n p) p (· = o) (fun p' => ∃ us, us.length = n ∧ view p' o = some (n, us))
+      (fun p' => view p' o = some (0, [])) := by
+  rw [allocate_phases]
+  obtain ⟨p₁, hr, hS, ha, hv⟩ := allocateReset_spec hI ho
+  simp only [bind_apply, hr]
+  obtain ⟨_, b₁, hb₁, hz⟩ := hS.inv.view_length hv
+  have hs₁ : b₁.size < p₁.L := by rw [hz]; exact hS.inv.Lpos
+  rw [← hS.L]
+  by_cases hn : n < p₁.L
+  · obtain ⟨p', h1, h2, h3⟩ := allocateTail_short hS.inv hb₁ hs₁ hn
+    exact Or.inl ⟨p', h1, hS.trans h2, h3⟩
+  · by_cases hf : p₁.failAt = some (p₁.allocs + 1)
+    · obtain ⟨p', h1, h2, h3⟩ := allocateTail_long_throw hS.inv (o := o) (n := n) (Nat.le_of_not_lt hn) hf (· = o)
+      refine Or.inr ⟨p', h1, by rw [← hS.failAt, ← ha]; exact hf, hS.trans h2, ?_⟩
+      show view p' o = some (0, [])
+      rw [h3 o]; exact hv
+    · obtain ⟨p', h1, h2, h3⟩ := allocateTail_long_ok hS.inv hb₁ hs₁ (Nat.le_of_not_lt hn) hf
+      exact Or.inl ⟨p', h1, hS.trans h2, h3⟩
+
+theorem overwrite_all {old us : List Nat} (h : old.length = us.length) : overwrite old 0 us = us := by
+  simp [overwrite, h]
+
+theorem allocateFill_spec {p : Pool} (hI : Inv p) {o : Nat} (n v : Nat) {b : Buf} (ho : p.objs o = some b) :
+    Outcome (allocateFill o n v p) p (· = o) (fun p' => view p' o = some (n, List.replicate n v))
+      (fun p' => view p' o = some (0, [])) := by
+  simp only [allocateFill, bind_apply]
+  rcases allocate_spec hI n ho with ⟨p₂, h1, h2, us, hlen, hv⟩ | ⟨p₂, h1, hf, h2, hv⟩
+  · rw [h1]
+    obtain ⟨_, b₂, hb₂, hz⟩ := h2.inv.view_length hv
+    simp only [getObj_some hb₂]
+    obtain ⟨p', h3, h4, _, old, ho1, ho2⟩ := write_spec h2.inv (a := 0) (us := List.replicate n v) hb₂ (by simp; omega)
+    refine Or.inl ⟨p', h3, h2.trans h4, ?_⟩
+    show view p' o = some (n, List.replicate n v)
+    rw [ho2, hz]
+    rw [hv] at ho1
+    simp only [Option.some.injEq, Prod.mk.injEq] at ho1
+    rw [overwrite_all (by rw [← ho1.2, hlen]; simp)]
+  · rw [h1]
+    exact Or.inr ⟨p₂, rfl, hf, h2, hv⟩
+
 end StVerif.Pool
